@@ -375,7 +375,9 @@ def pySync (w : World τ) (a : ActId) (lbl : Int) : PyInstr τ → World τ × O
       else
         let (w, exn) := w.newExn (.user cls w.userRaises)
         let (w, r) := ({ w with userRaises := w.userRaises + 1 }).pySetValue e (0, some exn)
-        (if r.isNone then w.emitAs a lbl "pytrig" ([(e : Int), 0] ++ w.exnCode1 exn) else w, r)
+        match r with
+        | none => (w.emitAs a lbl "pytrig" ([(e : Int), 0] ++ w.exnCode1 exn), none)
+        | some cls => (w, some cls)
   | .trigger x y =>
     match lookup w.py.names x, lookup w.py.names y with
     | some e, some src =>
@@ -545,6 +547,9 @@ def execStmt (w : World τ) (a : ActId) (fs : List (Frame τ)) : Stmt τ → Wor
       | .before t => 3 :: tArgs t
       | .eternity => [4, 0, 1]
       | .instant => [5, 0, 1]
+      | .ref n => (match (lookup w.condNames n).map (fun c => (w.cond c).kind) with
+        | some (.delay d) => 0 :: tArgs d            -- a kept `time + d` object: a delay from now
+        | _ => [9, 0, 1])
       | _ => [9, 0, 1]
     match w.buildCond c with
     | some (w, cid) => (w.emit a "abegin" desc).doCondAwait a (.awaitMark cid :: fs) cid
@@ -1349,7 +1354,10 @@ def stepRaise (w : World τ) (a : ActId) (f : Frame τ) (fs : List (Frame τ)) (
       else (w.pipeFinish p ident).retTo a fs .unit
     else (w.pipeFinish p ident).raiseTo a fs e
   | .asyncTrigger _ => w.raiseTo a fs e
-  | .coroutineEnd => w.finishAct a (.raise e)
+  | .coroutineEnd =>
+    -- (trace only: what escapes a root activity is what `run()` has to report)
+    let w := if (w.act a).isRoot && !(w.exn e == .genExit) then w.emit a "rootexc" (w.exnCode e) else w
+    w.finishAct a (.raise e)
 
 /-- one transition of the running activity -/
 def microStep (w : World τ) : World τ :=
